@@ -171,6 +171,14 @@ def gen(rng, idx, tier):
             u["glyphOrder"] = [g["name"] for g in u["glyphs"]]
         func = rng.choice(["compileVariableTTF", "compileVariableCFF2",
                            "compileInterpolatableTTFsFromDS"])
+        if rng.random() < 0.5:
+            # a feature file in the default master only (the other masters have none: None in
+            # one UFO library, the empty string in the other)
+            di_ = masters.default_source_index(ds)
+            for ui_, u in enumerate(ds["ufos"]):
+                u["features"] = ("languagesystem DFLT dflt;\nlanguagesystem latn dflt;\n"
+                                 if ui_ == ds["sources"][di_]["ufo"] else "")
+            ds.setdefault("meta", {})["features_in_default_master_only"] = True
         return {"kind": "ds", "ds": ds, "func": func, "opts": {},
                 "other_func": rng.choice(["compileTTF", "compileVariableTTF", None]),
                 "tier": tier}
@@ -418,6 +426,8 @@ def run(case):
         bump("cases_shared_option_objects_with_gpos_compaction")
     if case["kind"] == "ds":
         bump("cases_designspace")
+        if (case["ds"].get("meta") or {}).get("features_in_default_master_only"):
+            bump("cases_designspace_features_in_default_master_only")
     if case["kind"] == "outline" and any(g["name"] == "hookcomb_barcomb" for g in case["ufo"]["glyphs"]):
         bump("cases_mark_of_marks_curve_vs_control_box"
              + ("_per_library_only" if case.get("per_lib") else ""))
